@@ -27,5 +27,5 @@ SR=/tmp/seedrepo_$P$V
 git -C /repo worktree remove --force $SR 2>/dev/null; git -C /repo worktree add -q --detach $SR HEAD
 cd $SR && git apply $OUT/$V.diff || { echo "patch does not apply to HEAD"; exit 2; }
 cd /verif
-for c in $CHECKS; do echo "== ./check $c $TIER with change:"; HIERARC_REPO=$SR VERIF_BUILD=/tmp/seedbuild_$P$V VERIF_EVIDENCE=/tmp/seedbuild_$P$V/evidence ./check $c $TIER 2>&1 | grep -v "^KNOWN-FINDING" | cut -c1-300 | tail -6; done
+for c in $CHECKS; do echo "== ./check $c $TIER with change:"; HIERARC_REPO=$SR VERIF_BUILD=/tmp/seedbuild_$P$V VERIF_EVIDENCE=/tmp/seedbuild_$P$V/evidence ./check $c $TIER 2>&1 | grep -E "^VIOLATION|quick:|broken\[" | cut -c1-300 | tail -14; done
 git -C /repo worktree remove --force $SR; rm -rf /tmp/seedbuild_$P$V
